@@ -20,7 +20,15 @@ for m in spec:
     if only and m["name"] != only: continue
     path = f"{W}/repo/{m['file']}"
     src = open(path).read()
-    if "line" in m:
+    if "edits" in m:
+        cur = src; bad = None
+        for e in m["edits"]:
+            if cur.count(e["old"]) != 1: bad = f"SKIP: edit old occurs {cur.count(e['old'])} times: {e['old'][:40]!r}"; break
+            cur = cur.replace(e["old"], e["new"])
+        if bad:
+            results.append({"name": m["name"], "verdict": bad}); print(results[-1]); continue
+        open(path, "w").write(cur)
+    elif "line" in m:
         lines = src.split("\n")
         ln = m["line"] - 1
         if m["old"] not in lines[ln]:
